@@ -185,7 +185,7 @@ func init() {
 
 // VX_C02_FastReply: the peer's reply (or the loss of the connection) is
 // processed by the read loop before the caller's transport write has returned.
-// args: what(0 reply, 1 connection loss), nBody
+// args: what(0 OK reply, 1 connection loss, 2 error reply), nBody
 func VX_C02_FastReply(args []int) {
 	p := vxNewPeer()
 	conn := newVxConn("cli:1", "srv:2")
@@ -203,9 +203,12 @@ func VX_C02_FastReply(args []int) {
 		if err != nil {
 			return
 		}
-		if args[0] == 0 {
+		switch args[0] {
+		case 0:
 			conn.feed(vxFrame(TypeReply, m.Seq(), "", body))
-		} else {
+		case 2:
+			conn.feed(vxFrame(TypeReply, m.Seq(), "", nil, socket.WithStatus(NewStatus(1001, "biz error", "denied"))))
+		default:
 			conn.end()
 		}
 		vxWaitIdle() // the read loop gets as far as it can before the write returns
@@ -219,11 +222,17 @@ func VX_C02_FastReply(args []int) {
 	if vxDone(cmd) {
 		if args[0] == 0 {
 			vxAssert(cmd.StatusOK() && string(res) == string(body), "with the peer's reply")
+		} else if args[0] == 2 {
+			vxAssert(cmd.Status().Code() == 1001 && cmd.Status().Msg() == "biz error", "[C04] the caller observes the reply's error status, not OK, also when the reply overtakes the end of the write")
 		} else {
 			vxAssert(!cmd.StatusOK() && IsConnError(cmd.Status()), "with a connection error")
 		}
 	}
-	vxAssert(vxBlockedThreads() <= 1-args[0], "nobody left waiting")
+	if args[0] == 1 {
+		vxAssert(vxBlockedThreads() == 0, "nobody left waiting")
+	} else {
+		vxAssert(vxBlockedThreads() <= 1, "nobody but the reader left waiting")
+	}
 	vxCover("c02.fastreply")
 }
 
